@@ -78,6 +78,42 @@ def sel_spec(draw, min_nodes=3, max_nodes=12, max_incompat=3, p_extra=True, max_
                 opts = draw(st.permutations(cand))[:k]
                 choices.append({'origin': origin, 'opts': list(opts)})
 
+    if p_extra and draw(st.integers(0, 3)) == 0:
+        # root nodes that are NOT start nodes (removed by set_start_nodes together with everything only they derive);
+        # their derivation chains may merge indirectly and may lead into nodes that are reachable from the start nodes
+        n_orph = draw(st.integers(1, 3))
+        mids = []
+        for i in range(n_orph):
+            nodes[f'q{i}'] = {'k': 'gen'}
+            if draw(st.integers(0, 3)) != 0:
+                nodes[f'qm{i}'] = {'k': 'gen'}
+                edges.append([f'q{i}', f'qm{i}'])
+                mids.append(f'qm{i}')
+            else:
+                mids.append(f'q{i}')
+        if draw(st.integers(0, 3)) != 0:
+            nodes['qg'] = {'k': 'gen'}
+            for m in draw(st.lists(st.sampled_from(mids), min_size=1, max_size=len(mids), unique=True)):
+                edges.append([m, 'qg'])
+            tail = 'qg'
+            if draw(st.booleans()):
+                nodes['qh'] = {'k': 'gen'}
+                edges.append(['qg', 'qh'])
+                tail = 'qh'
+            r = draw(st.integers(0, 3))
+            if r == 0:
+                v = draw(st.sampled_from(placed))
+                if v not in start:
+                    edges.append([tail, v])
+            elif r == 1:
+                nodes['qo0'] = {'k': 'gen'}
+                nodes['qo1'] = {'k': 'gen'}
+                choices.append({'origin': tail, 'opts': ['qo0', 'qo1']})
+            elif r == 2 and len(placed) > n_start:
+                v = draw(st.sampled_from(placed[n_start:]))
+                nodes['qo0'] = {'k': 'gen'}
+                choices.append({'origin': tail, 'opts': ['qo0', v]})
+
     incompat = []
     n_inc = draw(st.integers(0, max_incompat))
     for _ in range(n_inc):
@@ -338,6 +374,8 @@ def labels(spec):
         out.append('multi_choice_origin')
     if len(spec['start']) > 1:
         out.append('multi_start')
+    if any(n.startswith('q') for n in spec['nodes']):
+        out.append('non_start_roots')
     if any(len(c['opts']) == 1 for c in spec['choices']):
         out.append('forced_choice')
     if spec.get('incompat'):
